@@ -69,6 +69,9 @@ by `domOK`, see `valOK_of_dom`): no NaN, opaque values print their class by its
 qualified name, dict keys and set elements are hashable, `init=False`
 attributes are at their default. -/
 def valOK (W : World) : Val → Bool
+  | .enum _ m => enumNameOK m
+  | .str t r => decodeStrLit r == some t
+  | .bytes _ bs r => decodeBytesLit r == some bs
   | .float n _ => notNan (some n)
   | .opaque c callee _ n => notNan n && callee == c.path
   | .set _ xs => hashableL xs && valOKL W xs
@@ -87,10 +90,14 @@ end
 
 mutual
 /-- the property's own domain: values for which "equal to the original" can
-hold at all and that a constructor call can produce — no NaN, dict keys and
+hold at all and that a constructor call can produce — the `repr` given for a
+`str`/`bytes` denotes it (true of CPython's `repr`: `str_repr_roundtrips`, `bytes_repr_roundtrips`), no NaN, dict keys and
 set elements hashable, `init=False` attributes at their default, opaque values print their
 class by its qualified name -/
 def domOK (W : World) : Val → Bool
+  | .enum _ m => enumNameOK m
+  | .str t r => decodeStrLit r == some t
+  | .bytes _ bs r => decodeBytesLit r == some bs
   | .float n _ => notNan (some n)
   | .opaque c callee _ n => notNan n && callee == c.path
   | .tuple xs => domOKL W xs
@@ -113,7 +120,7 @@ def importsOKe (e : PyExpr) : Bool :=
   e.refs.all fun pc => e.types.all fun t =>
     t.module == builtinsMod || t.path.headD [] != pc.1.headD [] || t.module == pc.2.module
 
-def importsOK (W : World) (v : Val) : Bool := importsOKe (render W v)
+def importsOK (W : World) (v : Val) : Bool := importsOKe (render W v)  -- implied by `renders W v` for well-formed values in the domain
 
 /-- all references of `e` resolve in `env` to the classes they mean -/
 def EnvGood (W : World) (env : Env) (refs : List (List Str × ClsRef)) : Prop :=
